@@ -18,6 +18,44 @@ thread_local! {
     /// each combinator's (hand-written) Clone impl is on the path of every parse
     pub static CLONE_NODES: std::cell::Cell<bool> = std::cell::Cell::new(false);
 }
+thread_local! {
+    /// C19: how fixed-size collections are built.  0 = `[O; N]` of values; 1 = `Box<[O; N]>` (collect_exactly through the
+    /// boxed container impl); 2 = the items are mapped to a ZERO-SIZED type with a destructor before they are grouped /
+    /// collected (group([..; N]) and collect_exactly::<[Zst; N]>): cleanup code that walks a pointer range sees an empty one
+    pub static VARIANT: std::cell::Cell<u8> = std::cell::Cell::new(0);
+    pub static ZLIVE: std::cell::Cell<i64> = std::cell::Cell::new(0);
+    pub static ZNEG: std::cell::Cell<bool> = std::cell::Cell::new(false);
+}
+pub fn variant() -> u8 {
+    VARIANT.with(|c| c.get())
+}
+/// a zero-sized output with a destructor: alive instances are counted, a count below zero is a double drop
+pub struct Zst;
+impl Zst {
+    pub fn new() -> Zst {
+        ZLIVE.with(|c| c.set(c.get() + 1));
+        Zst
+    }
+}
+impl Drop for Zst {
+    fn drop(&mut self) {
+        ZLIVE.with(|c| {
+            c.set(c.get() - 1);
+            if c.get() < 0 {
+                ZNEG.with(|n| n.set(true));
+            }
+        });
+    }
+}
+impl IntoVal for Zst {
+    fn into_val(self) -> Val {
+        Val::U
+    }
+}
+fn to_zst(v: Val) -> Zst {
+    drop(v);
+    Zst::new()
+}
 pub fn clone_nodes() -> bool {
     CLONE_NODES.with(|c| c.get())
 }
@@ -514,6 +552,9 @@ where
         Cons::Collect("count2") => r.count().map(|n| Val::I(n as i64)).bxd(),
         Cons::Collect("unit") => r.collect::<()>().map(|()| Val::U).bxd(),
         Cons::Collect(s) => return Err(format!("unsupported sink {s}")),
+        Cons::Exact(1) if variant() == 1 => r.collect_exactly::<Box<[O; 1]>>().map(|a| Val::A((a as Box<[O]>).into_vec().into_iter().map(IntoVal::into_val).collect())).bxd(),
+        Cons::Exact(2) if variant() == 1 => r.collect_exactly::<Box<[O; 2]>>().map(|a| Val::A((a as Box<[O]>).into_vec().into_iter().map(IntoVal::into_val).collect())).bxd(),
+        Cons::Exact(3) if variant() == 1 => r.collect_exactly::<Box<Box<[O; 3]>>>().map(|a| Val::A((*a as Box<[O]>).into_vec().into_iter().map(IntoVal::into_val).collect())).bxd(),
         Cons::Exact(0) => r.collect_exactly::<[O; 0]>().map(|_| Val::A(vec![])).bxd(),
         Cons::Exact(1) => r.collect_exactly::<[O; 1]>().map(|a| Val::A(a.into_iter().map(IntoVal::into_val).collect())).bxd(),
         Cons::Exact(2) => r.collect_exactly::<[O; 2]>().map(|a| Val::A(a.into_iter().map(IntoVal::into_val).collect())).bxd(),
@@ -546,6 +587,26 @@ where
     E: ErrTy<'a, I>,
 {
     match it {
+        It::Rep(a, lo, hi) if variant() == 2 && matches!(cons, Cons::Exact(_)) => {
+            let mut r = build(a, env)?.map(to_zst).repeated().at_least(*lo);
+            if *hi >= 0 {
+                r = r.at_most(*hi as usize);
+            }
+            consume(r, cons)
+        }
+        It::Sep(a, s, lo, hi, lead, trail) if variant() == 2 && matches!(cons, Cons::Exact(_)) => {
+            let mut r = build(a, env)?.map(to_zst).separated_by(build(s, env)?).at_least(*lo);
+            if *hi >= 0 {
+                r = r.at_most(*hi as usize);
+            }
+            if *lead {
+                r = r.allow_leading();
+            }
+            if *trail {
+                r = r.allow_trailing();
+            }
+            consume(r, cons)
+        }
         It::Rep(a, lo, hi) => {
             let mut r = build(a, env)?.repeated().at_least(*lo);
             if *hi >= 0 {
@@ -767,6 +828,21 @@ where
                     group((a, b, c)).map(|(a, b, c)| Val::G(vec![a, b, c])).bxd()
                 }
                 n => return Err(format!("unsupported group size {n}")),
+            }
+        }
+        G::GroupArr(ps) if variant() == 2 => {
+            let mut v = ps.iter().map(|p| build(p, env).map(|p| p.map(to_zst).boxed())).collect::<Result<Vec<_>, _>>()?;
+            match v.len() {
+                1 => group([v.remove(0)]).map(|a: [Zst; 1]| Val::A(a.into_iter().map(IntoVal::into_val).collect())).bxd(),
+                2 => {
+                    let (b, a) = (v.pop().unwrap(), v.pop().unwrap());
+                    group([a, b]).map(|a: [Zst; 2]| Val::A(a.into_iter().map(IntoVal::into_val).collect())).bxd()
+                }
+                3 => {
+                    let (c, b, a) = (v.pop().unwrap(), v.pop().unwrap(), v.pop().unwrap());
+                    group([a, b, c]).map(|a: [Zst; 3]| Val::A(a.into_iter().map(IntoVal::into_val).collect())).bxd()
+                }
+                n => return Err(format!("unsupported group array size {n}")),
             }
         }
         G::GroupArr(ps) => {
